@@ -7,6 +7,7 @@ Line-protocol driver for the coinswap model and the C01 / C02 monitors.
 import Irismod.Spec.C01
 import Irismod.Spec.C02
 import Irismod.Model.CoinswapGenesis
+import Irismod.Spec.C12_Coinswap
 import Irismod.Sdk.Line
 
 namespace Driver.Coinswap
@@ -107,11 +108,19 @@ def showCoins (l : CoinList) : String :=
 
 /-- `GetPoolByLptDenom(lpt-i)` for every sequence handed out so far -/
 def showLpts (s : State) : String :=
-  undash (joinWith "," ((List.range (min s.seq 64)).filterMap fun i =>
-    if i = 0 then none else
-    some (match findByLpt s.pools (lptDenom i) with
-      | some (cp, _) => s!"{lptDenom i}:{cp}"
-      | none => s!"{lptDenom i}:?")))
+  undash (joinWith "," ((Spec.C12.Coinswap.lptIndex s).map fun e => s!"{e.1}:{e.2}"))
+
+/-- the index as an observation line reports it -/
+def parseLpts (t : List String) : Option (List (Denom × String)) :=
+  (listOf (dash (arg t "lpts"))).mapM fun e =>
+    match e.splitOn ":" with
+    | [l, cp] => some (l, cp)
+    | _ => none
+
+def indexFails (o : List String) (post : State) : List String :=
+  match parseLpts o with
+  | some r => Spec.C12.Coinswap.indexFails r post
+  | none => ["obs-parse"]
 
 /-- canonical state line (sorted entries, zero entries omitted) -/
 def showState (s : State) : String :=
@@ -180,10 +189,6 @@ def validateWord (g : CoinswapGenesis.Genesis) : String :=
   | .ok _ => "ok"
   | .error _ => "err"
 
-/-- everything the observation carries is the same (pool registry compared as a set) -/
-def sameObs (a b : State) : Bool :=
-  showState a == showState b
-
 def resWord : R → String
   | .ok _ => "ok e=-"
   | .error (.reject c) => "rej e=" ++ c
@@ -243,15 +248,16 @@ def runMonitor (prop : String) (ops obs : Array String) : IO Unit := do
       match parseState o blocked with
       | some s =>
         pre := s
-        if prop == "C12" && arg o "lpts" != showLpts s then
-          out.putStrLn s!"mon {prop} FAIL clause=lpt-index line={i+1}"; fails := fails + 1
+        if prop == "C12" then
+          for c in indexFails o s do
+            out.putStrLn s!"mon {prop} FAIL clause={c} line={i+1}"; fails := fails + 1
       | none => out.putStrLn s!"mon {prop} FAIL clause=obs-parse line={i+1}"; fails := fails + 1
     | ["coinswap", "export"] =>
       -- C12: the exported genesis of a reachable state passes ValidateGenesis
       if prop == "C12" then
         steps := steps + 1
-        if arg o "validate" != "ok" then
-          out.putStrLn s!"mon {prop} FAIL clause=export-invalid line={i+1}"; fails := fails + 1
+        for c in Spec.C12.Coinswap.exportFails (arg o "validate" == "ok") do
+          out.putStrLn s!"mon {prop} FAIL clause={c} line={i+1}"; fails := fails + 1
     | ["coinswap", "reimport"] =>
       -- C12: the re-import succeeds and preserves every query of the projection (pools, sequence,
       -- parameters, standard denom) and leaves the bank alone
@@ -259,12 +265,8 @@ def runMonitor (prop : String) (ops obs : Array String) : IO Unit := do
       | some post =>
         if prop == "C12" then
           steps := steps + 1
-          if o.head? != some "ok" then
-            out.putStrLn s!"mon {prop} FAIL clause=reimport-failed line={i+1}"; fails := fails + 1
-          if !(sameObs pre post) then
-            out.putStrLn s!"mon {prop} FAIL clause=reimport-changed-state line={i+1}"; fails := fails + 1
-          if arg o "lpts" != showLpts post then
-            out.putStrLn s!"mon {prop} FAIL clause=lpt-index line={i+1}"; fails := fails + 1
+          for c in Spec.C12.Coinswap.reimportFails pre post (o.head? == some "ok") ++ indexFails o post do
+            out.putStrLn s!"mon {prop} FAIL clause={c} line={i+1}"; fails := fails + 1
         pre := post
       | none => out.putStrLn s!"mon {prop} FAIL clause=obs-parse line={i+1}"; fails := fails + 1
     | _ =>
@@ -293,8 +295,9 @@ def runMonitor (prop : String) (ops obs : Array String) : IO Unit := do
             out.putStrLn s!"mon {prop} FAIL clause={c.1} line={i+1}{if c.2 = "" then "" else " class=" ++ c.2}"
             fails := fails + 1
           -- C12: the lpt-denom index of the registry agrees with the pool list after every message
-          if prop == "C12" && arg o "lpts" != showLpts post then
-            out.putStrLn s!"mon {prop} FAIL clause=lpt-index line={i+1}"; fails := fails + 1
+          if prop == "C12" then
+            for c in indexFails o post do
+              out.putStrLn s!"mon {prop} FAIL clause={c} line={i+1}"; fails := fails + 1
           pre := post
         | _, _ => out.putStrLn s!"mon {prop} FAIL clause=parse line={i+1}"; fails := fails + 1
   out.putStrLn s!"mon {prop} done steps={steps} fails={fails}"
